@@ -227,8 +227,8 @@ def analyze_method(job, sdl, schema, pkg: Package, rt: PkgRuntime, mi, modes, kn
             sig = {"q": "accept", "reason": c["reason"]}
             if c["reason"] == "missing":
                 sig["absence"] = absence_cause(c["node"], c["variant"], c["key"])
-                sig["key_is_typename"] = c["key"] == "__typename"
                 ent = c["node"].variants[c["variant"]].get(c["key"])
+                sig["key_is_typename"] = c["key"] == "__typename" or (ent is not None and ent[4] == "__typename")
                 if ent is not None:
                     sig["directive_site"] = "fragment" if ent[2].fragcond else "field"
                     sig["selected_via"] = ez.via_class(ctx, ent[2])
